@@ -2,12 +2,14 @@
 import verif as V
 
 PROP = "C01"
-SPEC = ["Bng.Spec.C01", "Bng.Spec.C01Epoch", "Bng.Spec.C01FreeList", "Bng.Spec.C01Nexus"]
+SPEC = ["Bng.Spec.C01", "Bng.Spec.C01Epoch", "Bng.Spec.C01FreeList", "Bng.Spec.C01Nexus", "Bng.Spec.C01Cluster"]
 # monitors of the pool specification that belong to C01 (C05 owns count/exhaustion/lost/total)
 MON = ["unique", "idempotent", "range", "agree"]
 # epoch (lease) allocator: Bng.LeaseSpec adds expiry/reclaimed to the pool monitor
 MON_EPOCH = ["unique", "idempotent", "range", "agree"]
 COMPS = [
+    # PoolAllocator (store.go): the bitmap allocator behind a persisting store (production path of NewLocalAllocator, dhcpv6)
+    V.Component("poolalloc", monitors=MON),
     V.Component("epoch", monitors=MON_EPOCH, ignore_diff_ops=["stats"]),
     V.Component("bitmap", monitors=MON, ignore_diff_ops=["stats"]),
     # the five free-list pools (one generic Lean model, Bng.FreeList) and the hash allocator
@@ -17,12 +19,19 @@ COMPS = [
     V.Component("pppoepool", monitors=MON),
     V.Component("localpool", monitors=MON, ignore_diff_ops=["stats"]),
     V.Component("nexushash", monitors=MON),
+    # the real nexus.Client over an in-memory store (AllocateIPForSubscriber / ReleaseSubscriberIP, pool records edited)
+    V.Component("nexusclient", monitors=MON),
+    # two/three PeerPool nodes of one process with health flips (LocalPool behind the peer routing)
+    V.Component("peercluster", monitors=MON, ignore_diff_ops=["stats"]),
 ]
 LEVEL = ("Uniqueness, in-range and idempotence are theorems over the Lean models of the pool implementations "
          "for ALL operation histories and pool geometries (invariant + induction over the operation list); the "
          "models are tied to the real Go code by differential execution of generated operation sequences, and the "
          "abstract pool monitor (the definition the refinement theorems are about) judges the real code's answers.")
 ASSUME = [
+    "small-scope exhaustive enumeration runs in the THOROUGH tier only (the quick tier is seeded random sequences plus the corpus); its real bounds for the free-list pools are: dhcppool all sequences of length 5 over 12 mutating ops (alloc x3 MACs, release/mark/reserve of in-pool addresses) and of length 4 over those plus 3 out-of-range and 2 read-only ops, on pools of 2 and 3 usable addresses; v6addr, v6prefix, pppoepool all alloc/release sequences over 3 keys of length 6 (2-4 units) and 7 (1-2 units); localpool the same plus length 5 over 12 ops including get/owner/stats; nexushash, nexusclient and peercluster have no exhaustive part (random only). This is narrower than the '<=8 units, <=7 operations' of the property text; the theorems, not the enumeration, cover the general case",
+    "peercluster: all nodes are configured with the same peer list and the same pool network (as cmd/bng does from one set of flags); node health is set through the verif hook, the rendezvous ranking is taken from the implementation as an input of the model",
+    "nexusclient: the client runs over nexus.MemoryStore; the harness waits after every operation until all watch callbacks have reached the client's caches (the in-memory store delivers them on unordered goroutines)",
     "free-list pools: the network is what net.ParseCIDR returns (masked base, prefix length within the family); pppoe.NewIPPool and dhcpv6.NewAddressPool on the all-addresses network (/0) are excluded (the former does not terminate); keys (MAC, DUID, session id, subscriber id) are mapped injectively to numbers; pppoe.IPPool has no mutex (its callers run on one goroutine)",
     "nexushash: allocateFromPool is driven through the verif hook with the pool record's CIDR; the surrounding subscriber-record bookkeeping of AllocateIPForSubscriber is not driven; uniqueness is FALSE for this allocator (known finding D1-nexus-hash)",
     "epoch: IPv4 base network masked to its prefix, ones <= PrefixLength <= 32 (what NewEpochBitmapAllocator accepts); the epoch counter is a Nat (the uint64 wraps consistently with % 4)",
